@@ -40,6 +40,11 @@ Theorem C19_json_encoder_output_parses : forall pretty v, json_ok v -> parse_jso
 Proof. exact parse_encoder_output. Qed.
 Print Assumptions C19_json_encoder_output_parses.
 
+(* the parser is total: every text gives a value or a syntax error; its fuel is never exhausted *)
+Theorem C19_parse_json_total : forall s c, parse_json s <> Crash c.
+Proof. exact parse_json_no_crash. Qed.
+Print Assumptions C19_parse_json_total.
+
 (* ---- 2. the database file ---- *)
 
 (* [db_ok abs m]: names are in normal form (not empty, no leading @), names and targets are valid UTF-8,
